@@ -1240,47 +1240,49 @@ def _nav_range(fn, base_names):
     raise Unsupported(f"{fn.name}: range() arity")
 
 
-def sec_nav(m):
-    try:
-        return _sec_nav(m)
-    except Unsupported:
-        raise
-    except Exception as e:   # noqa: BLE001 - anything unexpected only breaks the obligations of this section
-        raise Unsupported(f"nav facts: {type(e).__name__}: {e}") from e
+def _nav_guarded(fn):
+    def wrapped(m):
+        try:
+            return fn(m)
+        except Unsupported:
+            raise
+        except Exception as e:   # noqa: BLE001 - anything unexpected only breaks the obligations of this section
+            raise Unsupported(f"nav facts: {type(e).__name__}: {e}") from e
+    return wrapped
 
 
-def _sec_nav(m):
-    lines = []
-    ncls = class_def(m["node"], "Node")
-    tcls = class_def(m["typed"], "TypedNode")
-    facts = {}
-    for cname, cls, names in (("Node", ncls, NAV_NODE_FUNCS), ("TypedNode", tcls, NAV_TYPED_FUNCS)):
-        for nm in names:
-            facts[(cname, nm)] = _nav_fn_facts(func_def(cls, nm), cname)
+def _nav_tables(cname, cls, names, pre):
+    """the per-accessor tables of one class; `pre` = NAV (node.py) or NAVT (typed_tree.py)"""
+    facts = {nm: _nav_fn_facts(func_def(cls, nm), cname) for nm in names}
 
-    def q(c, n):
-        return text(f"{c}.{n}")
+    def q(n):
+        return text(f"{cname}.{n}")
 
     def tl(xs):
         return "[" + "; ".join(text(x) for x in xs) + "]"
 
-    def z(v):
-        return f"({v})%Z"
+    lines = []
+    lines.append(f"Definition {pre}_EQ_ON_NODES : list (list Z) := [" + "; ".join(q(n) for n, f in facts.items() if f["eq"]) + "].")
+    lines.append(f"Definition {pre}_IDENTITY : list (list Z * (bool * list (list Z))) := [\n" + ";\n".join(
+        f"  ({q(n)}, ({'true' if facts[n]['is_self'] else 'false'}, {tl(facts[n]['calls'])}))" for n in NAV_IDENTITY_FUNCS) + "\n].")
+    lines.append(f"Definition {pre}_PARENT_READS : list (list Z * list (list Z)) := [\n" + ";\n".join(
+        f"  ({q(n)}, {tl(facts[n]['preads'])})" for n in NAV_IDENTITY_FUNCS) + "\n].")
+    lines.append(f"Definition {pre}_VALUE_COMPARES : list (list Z * list (list Z)) := [\n" + ";\n".join(
+        f"  ({q(n)}, {tl(facts[n]['kinds'])})" for n in names) + "\n].")
+    lines.append(f"Definition {pre}_SUBSCRIPTS : list (list Z * list (list Z * Z)) := [\n" + ";\n".join(
+        f"  ({q(n)}, [{'; '.join(f'({text(b)}, ({o})%Z)' for b, o in facts[n]['subs'])}])" for n in NAV_SUBSCRIPT_FUNCS) + "\n].")
+    return lines
 
-    lines.append("Definition NAV_EQ_ON_NODES : list (list Z) := [" +
-                 "; ".join(q(c, n) for (c, n), f in facts.items() if f["eq"]) + "].")
-    lines.append("Definition NAV_IDENTITY : list (list Z * (bool * list (list Z))) := [\n" + ";\n".join(
-        f"  ({q(c, n)}, ({'true' if facts[(c, n)]['is_self'] else 'false'}, {tl(facts[(c, n)]['calls'])}))"
-        for c in ("Node", "TypedNode") for n in NAV_IDENTITY_FUNCS) + "\n].")
-    lines.append("Definition NAV_PARENT_READS : list (list Z * list (list Z)) := [\n" + ";\n".join(
-        f"  ({q(c, n)}, {tl(facts[(c, n)]['preads'])})" for c in ("Node", "TypedNode") for n in NAV_IDENTITY_FUNCS) + "\n].")
-    lines.append("Definition NAV_T_KIND_COMPARES : list (list Z * list (list Z)) := [\n" + ";\n".join(
-        f"  ({q('TypedNode', n)}, {tl(facts[('TypedNode', n)]['kinds'])})" for n in NAV_TYPED_FUNCS) + "\n].")
-    lines.append("Definition NAV_N_VALUE_COMPARES : list (list Z * list (list Z)) := [\n" + ";\n".join(
-        f"  ({q('Node', n)}, {tl(facts[('Node', n)]['kinds'])})" for n in NAV_NODE_FUNCS) + "\n].")
-    lines.append("Definition NAV_SUBSCRIPTS : list (list Z * list (list Z * Z)) := [\n" + ";\n".join(
-        f"  ({q(c, n)}, [{'; '.join(f'({text(b)}, {z(o)})' for b, o in facts[(c, n)]['subs'])}])"
-        for c in ("Node", "TypedNode") for n in NAV_SUBSCRIPT_FUNCS) + "\n].")
+
+def _z(v):
+    return f"({v})%Z"
+
+
+@_nav_guarded
+def sec_navt(m):
+    tcls = class_def(m["typed"], "TypedNode")
+    lines = _nav_tables("TypedNode", tcls, NAV_TYPED_FUNCS, "NAVT")
+    z = _z
 
     # TypedNode.has_children: `return len(self.get_children(kind)) > 0`
     hc = func_def(tcls, "has_children")
@@ -1354,6 +1356,14 @@ def _sec_nav(m):
     rng, _ = _nav_range(func_def(tcls, "last_child"), {"len"})
     lines.append("Definition NAV_T_LAST_CHILD_RANGE : list Z := [" + "; ".join(z(v) for v in rng) + "].")
 
+    return lines
+
+
+@_nav_guarded
+def sec_nav(m):
+    ncls = class_def(m["node"], "Node")
+    lines = _nav_tables("Node", ncls, NAV_NODE_FUNCS, "NAV")
+    z = _z
     # Node.up: `if level < 1: raise`
     up = func_def(ncls, "up")
     ifs = [s for s in up.body if isinstance(s, ast.If)]
@@ -1416,7 +1426,8 @@ SECTIONS = [
     ("DICTLIST", sec_dictlist, []),
     ("DOCS", sec_docs, []),
     ("LOCK", sec_lock, ["tree", "typed", "fs", "dot", "node"]),
-    ("NAV", sec_nav, ["node", "typed"]),
+    ("NAV", sec_nav, ["node"]),
+    ("NAVT", sec_navt, ["typed"]),
 ]
 FILES = dict(common="common.py", tree="tree.py", typed="typed_tree.py", fs="fs.py", diff="diff.py", mermaid="mermaid.py",
              dot="dot.py", init="__init__.py", node="node.py")
